@@ -429,6 +429,10 @@ def setup_registries(state: str = 'both'):
     from ml_pipeline_engine.parallelism import process_pool_registry, threads_pool_registry
     th = StubExecutor(False)
     pr = StubExecutor(True)
+    if state == 'baton-thread':
+        # the REAL thread pool; SimLoop hands its jobs over one at a time (sim.Sim._submit_baton)
+        from concurrent.futures import ThreadPoolExecutor
+        th = ThreadPoolExecutor(max_workers=64, thread_name_prefix='verif-baton')
     if state != 'no-thread':
         threads_pool_registry.register_pool_executor(th)
     if state != 'no-process':
